@@ -520,28 +520,20 @@ func (d *detWrap) relay(realSub, h *reorgdetector.Subscription) {
 		case <-ctx.Done():
 			return
 		}
-		// from here on the detector holds the subscriber's tracked list locked until it is acknowledged: when the node is
-		// stopped in between, the dead detector is released so that a driver call waiting for that list can return
-		release := func() {
-			select {
-			case realSub.ReorgProcessed <- true:
-			case <-time.After(2 * time.Second):
-			}
-		}
+		// (when the node is stopped in the middle of the hand-over the old detector stays blocked: the process would be dead.
+		// It must NOT be acknowledged on the subscriber's behalf - it would delete the tracked range of a reorg that the
+		// subscriber never handled)
 		select {
 		case h.ReorgedBlock <- m:
 		case <-ctx.Done():
-			release()
 			return
 		}
 		select {
 		case <-h.ReorgProcessed:
 		case <-ctx.Done():
-			release()
 			return
 		}
 		if d.n.e.gated(ctx, "rd", "acked", "ack", nop) != nil {
-			release()
 			return
 		}
 		select {
